@@ -46,6 +46,25 @@ def merge : Option Res → Option Res → Res × Bool
     else if a.schema = b.schema then (newWithAttributes a.schema combine, false)
     else (newSchemaless combine, true)
 
+/-! ### accessors (nil receivers stand for the empty resource) -/
+
+/-- `(*Resource).Attributes()` -/
+def resAttributes : Option Res → List KV
+  | none => []
+  | some r => r.attrs
+/-- `(*Resource).SchemaURL()` -/
+def resSchemaURL : Option Res → Bytes
+  | none => []
+  | some r => r.schema
+/-- `(*Resource).Len()`, and the number of steps of `Iter()` -/
+def resLen (r : Option Res) : Nat := (resAttributes r).length
+/-- `(*Resource).Equal(o)`: `==` of the `Equivalent()`s -/
+def resEqual (a b : Option Res) : Bool := equal (resAttributes a) (resAttributes b)
+/-- `(*Resource).String()` / `Encoded(DefaultEncoder())`; `emit` = `Value.Emit` -/
+def resString (emit : Value → Bytes) : Option Res → Bytes
+  | none => []
+  | some r => encode emit r.attrs
+
 /-! ### strings.TrimSpace -/
 
 def asciiSpace (b : UInt8) : Bool :=
@@ -217,17 +236,67 @@ def detect (init : Bytes) (ds : List (Option DetOut)) : DetState :=
 
 /-! ### resource.New(ctx, opts…) (config.go, resource.go) -/
 
-/-- the two environment values the `fromEnv` detector reads -/
+/-- `StringDetector(schemaURL, k, f).Detect` (builtin.go): `f = none` = `f()` returned an error.
+An error of `f` and an invalid attribute (empty key) both give `(nil, non-partial error)`. -/
+def stringDetector (schema k : Bytes) (f : Option Bytes) : DetOut :=
+  match f with
+  | none => ⟨none, some ⟨false, false⟩⟩
+  | some v =>
+    if !valid ⟨k, .str v⟩ then ⟨none, some ⟨false, false⟩⟩
+    else ⟨some (newWithAttributes schema [⟨k, .str v⟩]), none⟩
+
+/-- the built-in detector types (builtin.go, os.go, process.go, host_id.go, container.go); what
+their `Detect` returns depends on the machine and is a parameter (`Env.builtin`) -/
+inductive BDet where
+  | host | hostID | telemetrySDK | osType | osDescription
+  | processPID | processExecutableName | processExecutablePath | processCommandArgs | processOwner
+  | processRuntimeName | processRuntimeVersion | processRuntimeDescription
+  | containerID | defaultServiceName
+deriving DecidableEq, Repr
+
+/-- the built-in `With…()` options of config.go -/
+inductive BOpt where
+  | host | hostID | telemetrySDK | os | osType | osDescription
+  | process | processPID | processExecutableName | processExecutablePath | processCommandArgs | processOwner
+  | processRuntimeName | processRuntimeVersion | processRuntimeDescription
+  | container | containerID
+deriving DecidableEq, Repr
+
+/-- config.go: the detectors each built-in option hands to `WithDetectors`, in order -/
+def builtinDetectors : BOpt → List BDet
+  | .host => [.host]
+  | .hostID => [.hostID]
+  | .telemetrySDK => [.telemetrySDK]
+  | .os => [.osType, .osDescription]
+  | .osType => [.osType]
+  | .osDescription => [.osDescription]
+  | .process => [.processPID, .processExecutableName, .processExecutablePath, .processCommandArgs,
+      .processOwner, .processRuntimeName, .processRuntimeVersion, .processRuntimeDescription]
+  | .processPID => [.processPID]
+  | .processExecutableName => [.processExecutableName]
+  | .processExecutablePath => [.processExecutablePath]
+  | .processCommandArgs => [.processCommandArgs]
+  | .processOwner => [.processOwner]
+  | .processRuntimeName => [.processRuntimeName]
+  | .processRuntimeVersion => [.processRuntimeVersion]
+  | .processRuntimeDescription => [.processRuntimeDescription]
+  | .container => [.containerID]
+  | .containerID => [.containerID]
+
+/-- the two environment values the `fromEnv` detector reads, and what every built-in detector
+returns in this process -/
 structure Env where
   attrs : Bytes
   svc : Bytes
+  builtin : BDet → DetOut := fun _ => ⟨none, none⟩
 
-/-- the options of config.go (every other `With…` is `WithDetectors` of built-in detectors) -/
+/-- the options of config.go -/
 inductive Opt where
   | withSchemaURL (s : Bytes)
   | withDetectors (ds : List (Option DetOut))   -- what each detector's `Detect` returns; `none` = nil Detector
   | withAttributes (kvs : List KV)              -- WithDetectors(detectAttributes{kvs})
   | withFromEnv                                 -- WithDetectors(fromEnv{})
+  | withBuiltin (o : BOpt)                      -- WithHost(), WithOS(), WithProcess(), …
 
 structure Cfg where
   detectors : List (Option DetOut) := []
@@ -239,6 +308,7 @@ def optDetectors (env : Env) : Opt → List (Option DetOut)
   | .withDetectors ds => ds
   | .withAttributes kvs => [some ⟨some (newSchemaless kvs), none⟩]
   | .withFromEnv => [some ⟨some (fromEnv env.attrs env.svc).1, (fromEnv env.attrs env.svc).2.1⟩]
+  | .withBuiltin o => (builtinDetectors o).map (fun d => some (env.builtin d))
 
 /-- `opt.apply(cfg)` -/
 def applyOpt (env : Env) (cfg : Cfg) : Opt → Cfg
@@ -249,6 +319,28 @@ def applyOpt (env : Env) (cfg : Cfg) : Opt → Cfg
 def newResource (env : Env) (opts : List Opt) : DetState :=
   let cfg := opts.foldl (applyOpt env) {}
   detect cfg.schemaURL cfg.detectors
+
+/-! ### resource.Default() (resource.go): `sync.Once` + package variable -/
+
+/-- the detector list of `Default()` (the experimental service-instance-id detector is off) -/
+def defaultDetectors (env : Env) : List (Option DetOut) :=
+  [some (env.builtin .defaultServiceName),
+   some ⟨some (fromEnv env.attrs env.svc).1, (fromEnv env.attrs env.svc).2.1⟩,
+   some (env.builtin .telemetrySDK)]
+
+/-- one call of `Default()`. `cache` = `defaultResource` once `defaultResourceOnce` has fired.
+Result: (the resource returned, calls of `otel.Handle` made by this call, the cache afterwards). -/
+def defaultCall (cache : Option Res) (env : Env) : Res × Nat × Option Res :=
+  match cache with
+  | some r => (r, 0, some r)
+  | none =>
+    let st := detect [] (defaultDetectors env)
+    (st.res, (fromEnv env.attrs env.svc).2.2 + (if st.anyErr then 1 else 0), some st.res)
+
+/-- successive calls of `Default()` under (possibly changing) environments -/
+def defaultSeq (cache : Option Res) : List Env → List Res
+  | [] => []
+  | e :: es => (defaultCall cache e).1 :: defaultSeq (defaultCall cache e).2.2 es
 
 end C19
 end Otel
